@@ -110,6 +110,7 @@ func hC03Pipe() {
 		return
 	}
 	verifAssert(out.valid, "C03: response is valid for the client's protocol, with exactly one terminal disposition")
+	verifAssert(!out.dupStatus, "C03: no second terminal status after the transcoder ended the RPC")
 	if !out.valid {
 		return
 	}
